@@ -7,13 +7,19 @@ check and the two digit year pivot.
 -/
 namespace Cutplace
 
-def humanToStrptime : List (Str × Str) :=
-  [("%".toList, "%%".toList), ("DD".toList, "%d".toList), ("MM".toList, "%m".toList), ("YYYY".toList, "%Y".toList),
-   ("YY".toList, "%y".toList), ("hh".toList, "%H".toList), ("mm".toList, "%M".toList), ("ss".toList, "%S".toList)]
-
-/-- `DateTimeFieldFormat.__init__`: `strptime_format` -/
-def translateLayout (rule : Str) : Str :=
-  humanToStrptime.foldl (fun s p => replaceAll p.1 p.2 s) rule
+/-- `DateTimeFieldFormat.__init__`: `strptime_format` - the placeholders `%`, `DD`, `MM`, `YYYY`, `YY`, `hh`, `mm`, `ss`
+are replaced in a single pass from left to right (`re.sub` over their alternation, in this order of preference) -/
+def translateLayout : Str → Str
+  | [] => []
+  | '%' :: r => '%' :: '%' :: translateLayout r
+  | 'D' :: 'D' :: r => '%' :: 'd' :: translateLayout r
+  | 'M' :: 'M' :: r => '%' :: 'm' :: translateLayout r
+  | 'Y' :: 'Y' :: 'Y' :: 'Y' :: r => '%' :: 'Y' :: translateLayout r
+  | 'Y' :: 'Y' :: r => '%' :: 'y' :: translateLayout r
+  | 'h' :: 'h' :: r => '%' :: 'H' :: translateLayout r
+  | 'm' :: 'm' :: r => '%' :: 'M' :: translateLayout r
+  | 's' :: 's' :: r => '%' :: 'S' :: translateLayout r
+  | c :: r => c :: translateLayout r
 
 inductive FmtTok
   | day | month | year4 | year2 | hour | minute | second
